@@ -3,7 +3,8 @@
 Gen/CellData.lean gets `Cell._INPUTS_TO_PROPERTY` (class name, attribute, cant_repeat) in dict order, each
 class's `_class_prefix()`, the value `CellDataPrintController()[prefix]` reports when nothing was set (the
 default placement), and the attributes `Cells` treats as "always update".  The C09 theorems quantify over
-this list, so adding / removing / renaming a per-cell class re-opens the proofs.
+this list, so adding / removing / renaming a per-cell class re-opens the proofs.  It also gets the lexer's keyword
+table (`CellLexer._KEYWORDS`): `C09_cell_keywords` is about which of them contain a class prefix as a substring.
 """
 import ast
 import inspect
@@ -35,5 +36,11 @@ def generate(write):
     ) + "]\n"
     body += "/-- `cells.py: Cells.update_pointers: inputs_to_always_update` -/\n"
     body += "def cellDataAlwaysUpdate : List String := [" + ", ".join(json.dumps(a) for a in always) + "]\n"
+    # the keyword table of the lexer that reads cell cards: the prefix of every parameter a cell card can carry
+    from montepy.input_parser.tokens import CellLexer
+
+    kws = sorted(str(k).lower() for k in CellLexer._KEYWORDS)
+    body += "/-- `input_parser/tokens.py: CellLexer._KEYWORDS` (sorted): every word that can be the prefix of a cell parameter -/\n"
+    body += "def cellLexerKeywords : List String := [" + ", ".join(json.dumps(k) for k in kws) + "]\n"
     body += "\nend MontePyVerif.Gen\n"
     write("CellData.lean", body)
